@@ -15,6 +15,9 @@ LEVEL = "model_checking"
 
 ASSUME = [
     "field states stand for classes of concrete values (one to four concrete spellings per state are materialized); "
+    "a NotAfter bound is a pair of ranks (seconds in 6 classes, nanos in 5) read in four strictly monotone spellings "
+    "(adjacent values, ends of the timestamp range, around the half second, around the int64-nanosecond horizon), a merge "
+    "delay one of four ranks read in five scales up to the ends of int32; "
     "ECDSA P-256 / RSA-2048 keys and SHA-256 trees are real, generated per run",
     "nil elements inside repeated fields and a nil *LogConfig argument are outside the domain (not producible by decoding a file)",
     "instances are built for the Trillian-gRPC chain storage backend only (the external backend dials a database in SetUpInstance); "
@@ -70,10 +73,11 @@ def run(ctx, replay=None):
     nvalid = sum(1 for c in cases if c["valid"])
     ctx.log("cases: %d single (%d drawn, %d valid), %d sets, %d multi (%d valid)" % (
         len(cases), drawn, nvalid, len(sets), len(multis), sum(1 for m in multis if m["valid"])))
-    ctx.exhaustive = ("every pair and selected triples of field groups in full product over four base configurations "
-                      "(%d single configs), all lists of <= 2 configs over 18 variants, all multi-configs with <= 2 backends "
+    ctx.exhaustive = ("every pair and selected triples of field groups in full product over four base configurations, the full "
+                      "product of NotAfter bound states (31 x 31: absent or (seconds, nanos) rank pairs incl. out-of-range components) "
+                      "over every base (%d single configs; a window with both bounds is validated in all four spellings), all lists of <= 2 configs over 18 variants, all multi-configs with <= 2 backends "
                       "(name, spec in 3 states each) x <= 2 logs (4 varying fields) x Backends/LogConfigs absent (%d); the full "
-                      "product of field states (5.6e7) is sampled by seeded draws" % (len(cases) - drawn, len(multis)))
+                      "product of field states (3.4e9) is sampled by seeded draws" % (len(cases) - drawn, len(multis)))
     # 3. behaviours of the instance machine: transition cover + random walks
     r = ctx.tlc("ctfe", "MCLogConfig", ctx.pick("LogConfigInstCover.cfg", "LogConfigInstCoverBig.cfg"), workers=1, count=False, timeout=1200)
     behs = r.records.get("BEH", [])
